@@ -46,9 +46,13 @@ def convert_value(value):
     if isinstance(value, bool):
         return AnyValue(bool_value=value)
     if isinstance(value, str):
-        return AnyValue(string_value=value)
+        # text is sent as UTF-8: what cannot be encoded (lone surrogates) is escaped, else the whole message fails
+        return AnyValue(string_value=value.encode('utf-8', 'backslashreplace').decode('utf-8'))
     if isinstance(value, int):
-        return AnyValue(int_value=value)
+        if -2 ** 63 <= value < 2 ** 63:
+            return AnyValue(int_value=value)
+        # does not fit the 64 bit of the wire type: send the digits
+        return AnyValue(string_value=str(value))
     if isinstance(value, float):
         return AnyValue(double_value=value)
     if isinstance(value, bytes):
@@ -67,7 +71,13 @@ def __value_as_dict(value):
 
 
 def __value_as_list(value):
-    return ArrayValue(values=[convert_value(val) for val in value])
+    return ArrayValue(values=[__element(val) for val in value])
+
+
+def __element(value):
+    # an element without a value (None: an element of a cleaned sequence that was not valid) is sent as an empty value
+    converted = convert_value(value)
+    return AnyValue() if converted is None else converted
 
 
 def convert_resource(resource):
